@@ -84,7 +84,11 @@ class Case:
                     self.dirs.add(item.rstrip("/"))
                 else:
                     p, h = item.split("=")
-                    self.files[p] = content(h)
+                    if h.startswith("@"):
+                        # a symbolic link to a file of the same directory, named earlier: reads follow it
+                        self.files[p] = self.files[(p.rsplit("/", 1)[0] + "/" if "/" in p else "") + h[1:]]
+                    else:
+                        self.files[p] = content(h)
         self.send = "send" if self.split else "srv"
         self.recv = "recv" if self.split else "srv"
         self.dirs.add(self.send)
@@ -415,6 +419,10 @@ class C09(ServerProp):
             fs = "%s/f=gen:%d:%d" % (base, flen, rng.randint(0, 255))
             opts = rand_optlist(rng, hostile=rng.random() < 0.15)
             name = b"f" if kind == "rrq" else rng.choice([b"up", b"f"])
+            if kind == "rrq" and rng.random() < 0.2:
+                # the requested name is a symbolic link to the file (tsize must be the size of what is sent, not of the link)
+                fs += ",%s/lnk=@f" % base
+                name = b"lnk"
             lines.append("req %s %s %s %s" % (self.root(i), flags, fs, rq(kind, name, opts).hex()))
         # directed: large blksize x windowsize products (a window of just over 1 MiB, uploaded in full and paced) and the
         # products just below; option order varied; both port modes
@@ -707,6 +715,14 @@ class C12(ServerProp):
                     for sched in (["01", "001", "00001"] if tier == "thorough" else [rng.choice(["01", "001", "0001"])]):
                         lines.append("multi %s %s srv/big=gen:3000:5 %s %s x:0:%s" % (self.root(i), flags, sched, victim, what))
                         i += 1
+        # directed: one endpoint performs two transfers, one after the other, from the same port (a client need not change its port)
+        seqs = ["d:c:8:1+d:big:512:1", "d:big:512:2+u:up1:512:1:gen:700:3", "u:up1:8:2:gen:30:1+d:c:8:1", "u:up1:512:1:gen:1500:4+u:up2:512:1:gen:600:5",
+                "d:missing:512:1+d:c:8:1", "d:c:8:1+d:c:8:1"]
+        for flags in ["-", "s"]:
+            for sq in seqs:
+                for other in ["d:big:1024:1", "i:ack"]:
+                    lines.append("multi %s %s srv/c=gen:16:3,srv/big=gen:3000:5 %s %s %s" % (self.root(i), flags, rng.choice(["0", "01", "0011", "1000"]), sq, other))
+                    i += 1
         n = 250 if tier == "quick" else 6000
         for _ in range(n):
             k = rng.randint(2, 4 if tier == "quick" else 9)
@@ -725,7 +741,7 @@ class C12(ServerProp):
         res.count("K=%d" % (len(t) - 5))
         res.count("flags:" + t[2])
         for c in t[5:]:
-            res.count("client:" + c[0])
+            res.count("client:" + c[0] + ("+" if "+" in c else ""))
 
     def oracle(self, line, impl):
         if impl in ("abort", "panic") or not impl.startswith("c0="):
@@ -734,8 +750,13 @@ class C12(ServerProp):
         c = Case(" ".join(t[:4] + ["-"]))
         single = "s" in t[2]
         outs = dict(x.split("=", 1) for x in impl.split(" ; ")[0].split(" "))
+        subs = []
         for k, spec in enumerate(t[5:]):
-            got = outs.get("c%d" % k, "")
+            parts = spec.split("+")
+            gots = outs.get("c%d" % k, "").split("|")
+            gots += [""] * (len(parts) - len(gots))
+            subs += [(k, sp, g) for sp, g in zip(parts, gots)]
+        for k, spec, got in subs:
             p = spec.split(":")
             if p[0] == "d":
                 f = c.files.get("srv/" + p[1])
